@@ -196,12 +196,14 @@ impl<D: DictionaryAccess> DictBuilder<D> {
     /// Read the connection matrix from either a file or an in-memory buffer
     pub fn read_conn<'a, T: AsDataSource<'a> + 'a>(&mut self, data: T) -> SudachiResult<()> {
         let report = ReportBuilder::new(data.name()).read();
-        match data.convert() {
+        let result = match data.convert() {
             DataSource::File(p) => self.conn.read_file(p),
             DataSource::Data(d) => self.conn.read(d),
-        }?;
+        };
+        // the limits follow the buffer even if reading failed half-way: the buffer keeps the new dimensions
         self.lexicon
             .set_max_conn_sizes(self.conn.left(), self.conn.right());
+        result?;
         self.reporter.collect(
             self.conn.left() as usize * self.conn.right() as usize,
             report,
